@@ -1,5 +1,3 @@
-use std::vec;
-
 use log::debug;
 
 use crate::range_value;
@@ -55,6 +53,13 @@ fn crc56(message: &[u32]) -> u32 {
 
 /// Calculate the reminder of the message
 ///
+/// The 24-bit remainder of the whole frame divided by the Mode S generator
+/// polynomial equals the CRC of the data bits XORed with the parity field.
+/// Only the part that has to be zero for the frame to be error free is returned:
+/// all 24 bits for DF17/18, the upper 17 bits for DF11 (the lower 7 carry the
+/// interrogator code) and nothing for the address/parity formats, where the
+/// remainder is the aircraft address and cannot be checked.
+///
 /// # Arguments
 ///
 /// * `message` - The message to calculate the reminder
@@ -64,29 +69,19 @@ fn crc56(message: &[u32]) -> u32 {
 /// The reminder of the message
 ///
 pub(crate) fn reminder(message: &[u32]) -> u32 {
-    let generator = [0b11111111u16, 0b11111010u16, 0b00000100u16, 0b10000000u16];
+    let (crc, len) = match message.len() {
+        14 => (crc56(message), 56),
+        28 => (crc112(message), 112),
+        _ => return 0xFFFFFF,
+    };
+    let parity = range_value(message, len - 23, len).expect("Cannot set parity in reminder.");
+    let remainder = crc ^ parity;
 
-    let mut bytes = message[0..message.len() - 6]
-        .iter()
-        .map(|&x| (x & 0b1111) as u8)
-        .collect::<Vec<u8>>();
-    bytes.append(vec![0; 6].as_mut());
-
-    for i in 0..bytes.len() - 6 {
-        for j in 0..8u8 {
-            let mask = 0x80 >> j;
-            if bytes[i] & mask != 0 {
-                bytes[i] ^= (generator[0] >> j) as u8;
-                bytes[i + 1] ^= (generator[0] << (8 - j)) as u8 | (generator[1] >> j) as u8;
-                bytes[i + 2] ^= (generator[1] << (8 - j)) as u8 | (generator[2] >> j) as u8;
-                bytes[i + 3] ^= (generator[2] << (8 - j)) as u8 | (generator[3] >> j) as u8;
-            }
-        }
+    match range_value(message, 1, 5) {
+        Some(17 | 18) => remainder,
+        Some(11) => remainder & 0xFFFF80,
+        _ => 0,
     }
-
-    (((bytes[bytes.len() - 3]) as u32) << 16)
-        | (((bytes[bytes.len() - 2]) as u32) << 8)
-        | (bytes[bytes.len() - 1]) as u32
 }
 
 #[cfg(test)]
